@@ -785,18 +785,30 @@ class BuiltinsMixin:
 
 
 class B_ObjDict(DictV):
-    """live view of an instance __dict__"""
+    """live view of an instance __dict__: the attributes that are NOT stored in a slot declared by a class of the MRO"""
     def __init__(self, o):
         self.obj = o
         self.oid = -o.oid
 
+    def _slot_names(self):
+        names = set()
+        for c in getattr(self.obj.cls, "mro", []) or []:
+            sl = getattr(c, "slots", None)
+            if sl is None and isinstance(getattr(c, "ns", None), dict) and isinstance(c.ns.get("__slots__"), (tuple, list)):
+                sl = c.ns["__slots__"]
+            if sl:
+                names |= {x for x in sl if isinstance(x, str)}
+        return names
+
     @property
     def keys(self):
-        return list(self.obj.fields.keys())
+        sn = self._slot_names()
+        return [k for k in self.obj.fields.keys() if k not in sn]
 
     @property
     def vals(self):
-        return list(self.obj.fields.values())
+        sn = self._slot_names()
+        return [v for k, v in self.obj.fields.items() if k not in sn]
 
 
 def _nd_wrap(r):
